@@ -1858,4 +1858,732 @@ theorem complete_child_row (s : State) (hu : JobsUnique s) (b j : Nat) (att inst
     · intro hns; simp [childUpdate, hns]
     · intro hns; simp only [childUpdate, hns, if_true]; split_ifs <;> rfl
 
+/-! ## tallies: which transactions touch group rows, batch ids and the batch id counter -/
+
+/-- what the tally invariant reads of a group row -/
+def groupKey (g : Group) : Nat × Nat × List Nat × (Int × Int × Int × Int) := (g.batch, g.id, g.ancestors, tallyOf g)
+
+/-- group rows keep their keys, ancestors and tallies (in order), batch rows keep their ids, no batch id is allocated -/
+def Quiet (s s' : State) : Prop :=
+  s'.groups.map groupKey = s.groups.map groupKey ∧ s'.batches.map (·.id) = s.batches.map (·.id) ∧ s'.nextBatch = s.nextBatch
+
+theorem Quiet.refl (s : State) : Quiet s s := ⟨rfl, rfl, rfl⟩
+theorem Quiet.trans {a b c : State} (h1 : Quiet a b) (h2 : Quiet b c) : Quiet a c :=
+  ⟨h2.1.trans h1.1, h2.2.1.trans h1.2.1, h2.2.2.trans h1.2.2⟩
+theorem Quiet.of_eq {s s' : State} (hg : s'.groups = s.groups) (hb : s'.batches = s.batches) (hn : s'.nextBatch = s.nextBatch) :
+    Quiet s s' := ⟨by rw [hg], by rw [hb], hn⟩
+
+theorem quiet_updateJobs (s : State) (p : Job → Bool) (f : Job → Job) : Quiet s (updateJobs s p f) := ⟨rfl, rfl, rfl⟩
+theorem quiet_updateAttempts (s : State) (d : Nat) (p : Attempt → Bool)
+    (f : Generated.AttemptsTrigger.Row → Generated.AttemptsTrigger.Row) : Quiet s (updateAttempts s d p f) := ⟨rfl, rfl, rfl⟩
+theorem quiet_addAttempt (s : State) (b j : Nat) (a i : Option Nat) (c : Int) : Quiet s (addAttempt s b j a i c).1 := by
+  unfold addAttempt; repeat' split
+  all_goals exact ⟨rfl, rfl, rfl⟩
+theorem quiet_freeAdd (s : State) (i : Option Nat) (d : Int) : Quiet s (freeAdd s i d) := ⟨rfl, rfl, rfl⟩
+theorem quiet_endAttempts (s : State) (d : Nat) (p : Attempt → Bool) (ts : Int) (r : String) :
+    Quiet s (endAttempts s d p ts r) := ⟨rfl, rfl, rfl⟩
+theorem quiet_schedulePrep (s : State) (b j a i : Nat) (job : Job) : Quiet s (schedulePrep s b j a i job) :=
+  quiet_addAttempt s b j _ _ _
+theorem quiet_startPrep (s : State) (b j a i : Nat) (ts : Int) (d : Nat) (job : Job) :
+    Quiet s (startPrep s b j a i ts d job) :=
+  (quiet_addAttempt s b j _ _ _).trans (quiet_updateAttempts _ d _ _)
+
+theorem quiet_completePrep (s : State) (b j : Nat) (att inst : Option Nat) (st e : Option Int) (r : String) (d : Nat)
+    (job : Job) : Quiet s (completePrep s b j att inst st e r d job) := by
+  unfold completePrep
+  dsimp only
+  have h1 := quiet_addAttempt s b j att inst job.cores
+  cases att with
+  | none => dsimp only; split_ifs
+            · exact h1.trans (quiet_freeAdd _ _ _)
+            · exact h1
+  | some a => dsimp only; split_ifs
+              · exact (h1.trans (quiet_updateAttempts _ d _ _)).trans (quiet_freeAdd _ _ _)
+              · exact h1.trans (quiet_updateAttempts _ d _ _)
+
+theorem quiet_unschedulePrep (s : State) (b j a i : Nat) (e : Int) (r : String) (d : Nat) (job : Job) :
+    Quiet s (unschedulePrep s b j a i e r d job) := by
+  unfold unschedulePrep
+  dsimp only
+  split_ifs
+  · exact (quiet_endAttempts s d _ e r).trans (quiet_freeAdd _ _ _)
+  · exact quiet_endAttempts s d _ e r
+
+theorem quiet_createUpdate (s : State) (b t nj ng u : Nat) : Quiet s (createUpdate s b t nj ng u).1 := by
+  unfold createUpdate; model_split <;> exact ⟨rfl, rfl, rfl⟩
+theorem quiet_insertJobs (s : State) (b upd user : Nat) (specs : List JobSpec) : Quiet s (insertJobs s b upd user specs).1 := by
+  unfold insertJobs; model_split <;> exact ⟨rfl, rfl, rfl⟩
+theorem quiet_cancelGroup (s : State) (b g : Nat) : Quiet s (cancelGroup s b g).1 := by
+  unfold cancelGroup; split_ifs <;> exact ⟨rfl, rfl, rfl⟩
+theorem map_id_ite {α β : Type} (l : List α) (key : α → β) (c : α → Prop) [DecidablePred c] (f : α → α)
+    (hf : ∀ x, key (f x) = key x) : (l.map fun x => if c x then f x else x).map key = l.map key := by
+  rw [List.map_map]; apply List.map_congr_left; intro x _; simp only [Function.comp]; split_ifs
+  · exact hf x
+  · rfl
+theorem quiet_deleteBatch (s : State) (b : Nat) : Quiet s (deleteBatch s b).1 := by
+  unfold deleteBatch; split
+  · exact Quiet.refl s
+  · split_ifs
+    · exact Quiet.refl s
+    · exact ⟨rfl, map_id_ite _ _ _ _ (fun _ => rfl), rfl⟩
+    · exact ⟨rfl, map_id_ite _ _ _ _ (fun _ => rfl), rfl⟩
+theorem quiet_newInstance (s : State) (n : Nat) (c : Int) (p : Bool) : Quiet s (newInstance s n c p).1 := by
+  unfold newInstance; split_ifs <;> exact ⟨rfl, rfl, rfl⟩
+theorem quiet_activate (s : State) (n : Nat) : Quiet s (activate s n).1 := by
+  unfold activate; model_split <;> exact ⟨rfl, rfl, rfl⟩
+theorem quiet_markDeleted (s : State) (n : Nat) : Quiet s (markDeleted s n).1 := by
+  unfold markDeleted; model_split <;> exact ⟨rfl, rfl, rfl⟩
+theorem quiet_addResources (s : State) (b j a : Nat) (res : List (Nat × Int)) (d : Nat) :
+    Quiet s (addResources s b j a res d).1 := by
+  unfold addResources; split_ifs <;> exact ⟨rfl, rfl, rfl⟩
+theorem quiet_deactivate (s : State) (n : Nat) (r : String) (ts : Int) (d : Nat) : Quiet s (deactivate s n r ts d).1 := by
+  unfold deactivate; split
+  · exact Quiet.refl s
+  · split_ifs
+    · exact Quiet.refl s
+    · exact ⟨rfl, rfl, rfl⟩
+theorem quiet_schedule (s : State) (b j a i : Nat) : Quiet s (schedule s b j a i).1 := by
+  unfold schedule; split
+  · exact Quiet.refl s
+  · split_ifs
+    · exact (quiet_schedulePrep s b j a i _).trans (quiet_updateJobs _ _ _)
+    · exact quiet_schedulePrep s b j a i _
+theorem quiet_startLike (s : State) (b j a i : Nat) (ts : Int) (d : Nat) (need : IState) (ns : JState) :
+    Quiet s (startLike s b j a i ts d need ns).1 := by
+  unfold startLike; split
+  · exact Quiet.refl s
+  · split_ifs
+    · exact (quiet_startPrep s b j a i ts d _).trans (quiet_updateJobs _ _ _)
+    · exact quiet_startPrep s b j a i ts d _
+theorem quiet_unschedule (s : State) (b j a i : Nat) (e : Int) (r : String) (d : Nat) :
+    Quiet s (unschedule s b j a i e r d).1 := by
+  unfold unschedule; split
+  · exact Quiet.refl s
+  · split_ifs
+    · exact (quiet_unschedulePrep s b j a i e r d _).trans (quiet_updateJobs _ _ _)
+    · exact quiet_unschedulePrep s b j a i e r d _
+
+theorem quiet_commitUpdate (s : State) (b upd : Nat) : Quiet s (commitUpdate s b upd).1 := by
+  unfold commitUpdate
+  model_split
+  all_goals first | exact Quiet.refl s | exact ⟨rfl, rfl, rfl⟩ | skip
+  all_goals
+    refine ⟨map_id_ite _ _ _ _ (fun _ => rfl), map_id_ite _ _ _ _ (fun _ => rfl), rfl⟩
+
+/-! ## tallies: the recount and what group lookups depend on -/
+
+/-- the four components of a tally -/
+def comp (i : Fin 4) (t : Int × Int × Int × Int) : Int :=
+  match i with
+  | 0 => t.1 | 1 => t.2.1 | 2 => t.2.2.1 | 3 => t.2.2.2
+
+theorem comp_add (i : Fin 4) (a c : Int × Int × Int × Int) : comp i (tallyAdd a c) = comp i a + comp i c := by
+  match i with
+  | 0 => rfl | 1 => rfl | 2 => rfl | 3 => rfl
+
+/-- what a job contributes to the tallies of the groups above it -/
+def contrib (st : JState) : Int × Int × Int × Int := if st.terminal then tallyInc st else (0, 0, 0, 0)
+
+theorem comp_zero (i : Fin 4) : comp i (0, 0, 0, 0) = 0 := by
+  match i with
+  | 0 => rfl | 1 => rfl | 2 => rfl | 3 => rfl
+
+theorem contrib_of_not_terminal {st : JState} (h : st.terminal = false) : contrib st = (0, 0, 0, 0) := by
+  simp [contrib, h]
+
+/-- job `x` lies in group `gid` of batch `b` or below it -/
+def under (s : State) (b gid : Nat) (x : Job) : Bool := decide (x.batch = b) && (ancestorsOf s x.batch x.group).contains gid
+
+/-- the recount: component `i` of the tallies group (b, gid) should have -/
+def recount (i : Fin 4) (s : State) (b gid : Nat) : Int :=
+  sumBy (fun x => if under s b gid x then comp i (contrib x.state) else 0) s.jobs
+
+theorem findGroup_keys (s : State) (b g : Nat) :
+    (findGroup s b g).map groupKey = (s.groups.map groupKey).find? (fun k => decide (k.1 = b ∧ k.2.1 = g)) := by
+  unfold findGroup
+  rw [List.find?_map]
+  rfl
+
+theorem ancestorsOf_keys {s s' : State} (h : s'.groups.map groupKey = s.groups.map groupKey) (b g : Nat) :
+    ancestorsOf s' b g = ancestorsOf s b g := by
+  have h1 := findGroup_keys s b g
+  have h2 := findGroup_keys s' b g
+  rw [h, ← h1] at h2
+  unfold ancestorsOf
+  cases hf : findGroup s b g with
+  | none =>
+    cases hf' : findGroup s' b g with
+    | none => rfl
+    | some v' => rw [hf, hf'] at h2; simp at h2
+  | some v =>
+    cases hf' : findGroup s' b g with
+    | none => rw [hf, hf'] at h2; simp at h2
+    | some v' =>
+      rw [hf, hf'] at h2
+      simp only [Option.map_some, Option.some.injEq, groupKey, Prod.mk.injEq] at h2
+      exact h2.2.2.1
+
+theorem findGroup_isSome_keys {s s' : State} (h : s'.groups.map groupKey = s.groups.map groupKey) (b g : Nat) :
+    (findGroup s' b g).isSome = (findGroup s b g).isSome := by
+  have h1 := findGroup_keys s b g
+  have h2 := findGroup_keys s' b g
+  rw [h, ← h1] at h2
+  cases hf : findGroup s b g <;> cases hf' : findGroup s' b g <;> rw [hf, hf'] at h2 <;> simp at h2 <;> rfl
+
+theorem mem_keys {s s' : State} (h : s'.groups.map groupKey = s.groups.map groupKey) {g' : Group} (hg : g' ∈ s'.groups) :
+    ∃ g ∈ s.groups, groupKey g = groupKey g' := by
+  have : groupKey g' ∈ s'.groups.map groupKey := List.mem_map_of_mem hg
+  rw [h, List.mem_map] at this
+  exact this
+
+theorem findGroup_append_some {s s' : State} {new : List Group} (e : s'.groups = s.groups ++ new) {b g : Nat}
+    (h : (findGroup s b g).isSome = true) : findGroup s' b g = findGroup s b g := by
+  unfold findGroup at *
+  rw [e, List.find?_append]
+  cases hf : List.find? (fun x => decide (x.batch = b ∧ x.id = g)) s.groups with
+  | none => rw [hf] at h; simp at h
+  | some x => rfl
+
+theorem ancestorsOf_append_some {s s' : State} {new : List Group} (e : s'.groups = s.groups ++ new) {b g : Nat}
+    (h : (findGroup s b g).isSome = true) : ancestorsOf s' b g = ancestorsOf s b g := by
+  unfold ancestorsOf; rw [findGroup_append_some e h]
+
+theorem mem_of_findGroup {s : State} {b g : Nat} {x : Group} (h : findGroup s b g = some x) :
+    x ∈ s.groups ∧ x.batch = b ∧ x.id = g := by
+  unfold findGroup at h
+  have := List.find?_some h
+  exact ⟨List.mem_of_find?_eq_some h, by simpa using this⟩
+
+theorem findGroup_isSome_of_mem {s : State} {x : Group} (hx : x ∈ s.groups) : (findGroup s x.batch x.id).isSome = true := by
+  unfold findGroup
+  rw [List.find?_isSome]
+  exact ⟨x, hx, by simp⟩
+
+/-- the recount only reads job rows' batch / group / state and the ancestor lists of their groups -/
+theorem recount_map_append (i : Fin 4) {s s' : State} {F : Job → Job} {new : List Job} (hF : JobFrame F)
+    (e : s'.jobs = s.jobs.map F ++ new) (hanc : ∀ x ∈ s.jobs, ancestorsOf s' x.batch x.group = ancestorsOf s x.batch x.group)
+    (hnew : ∀ y ∈ new, y.state.terminal = false) (b gid : Nat) :
+    recount i s' b gid = recount i s b gid +
+      sumBy (fun x => if under s b gid x then comp i (contrib (F x).state) - comp i (contrib x.state) else 0) s.jobs := by
+  unfold recount
+  rw [e, sumBy_append]
+  have hz : sumBy (fun x => if under s' b gid x then comp i (contrib x.state) else 0) new = 0 := by
+    apply sumBy_zero
+    intro y hy
+    rw [contrib_of_not_terminal (hnew y hy), comp_zero]; simp
+  rw [hz, Int.add_zero]
+  have : sumBy (fun x => if under s' b gid x then comp i (contrib x.state) else 0) (s.jobs.map F) =
+      sumBy (fun x => if under s b gid x then comp i (contrib (F x).state) else 0) s.jobs := by
+    unfold sumBy
+    rw [List.map_map]
+    congr 1
+    apply List.map_congr_left
+    intro x hx
+    have hu : under s' b gid (F x) = under s b gid x := by
+      unfold under; rw [(hF x).1, (hF x).2.2.2.1, hanc x hx]
+    simp only [Function.comp, hu]
+  rw [this]
+  unfold sumBy
+  induction s.jobs with
+  | nil => rfl
+  | cons x l ih =>
+    simp only [List.map_cons, List.sum_cons, ih]
+    split_ifs <;> omega
+
+/-! ## the tally invariant -/
+
+structure TInv (s : State) : Prop where
+  gself : GroupsSelf s
+  /-- every job's group has a row -/
+  jgrp : ∀ x ∈ s.jobs, (findGroup s x.batch x.group).isSome = true
+  /-- ancestor lists name existing groups -/
+  closed : ∀ g ∈ s.groups, ∀ a ∈ g.ancestors, (findGroup s g.batch a).isSome = true
+  bids : ∀ bt ∈ s.batches, bt.id < s.nextBatch
+  gbatch : ∀ g ∈ s.groups, g.batch < s.nextBatch
+  /-- every tally of every group row equals the recount over the jobs in the group or below it -/
+  exact : ∀ g ∈ s.groups, ∀ i : Fin 4, comp i (tallyOf g) = recount i s g.batch g.id
+
+theorem tinv_init : TInv init :=
+  ⟨groupsSelf_init, by intro x hx; simp [init] at hx, by intro x hx; simp [init] at hx, by intro x hx; simp [init] at hx,
+   by intro x hx; simp [init] at hx, by intro x hx; simp [init] at hx⟩
+
+/-- the job table after a transaction that completes nothing: rows updated in place keeping their contribution, new rows
+not terminal and in existing groups -/
+def JQuiet (s s' : State) : Prop :=
+  ∃ (F : Job → Job) (new : List Job), JobFrame F ∧ s'.jobs = s.jobs.map F ++ new ∧
+    (∀ x ∈ s.jobs, contrib (F x).state = contrib x.state) ∧ (∀ y ∈ new, y.state.terminal = false) ∧
+    (∀ y ∈ new, (findGroup s y.batch y.group).isSome = true)
+
+theorem jquiet_of_eq {s s' : State} (e : s'.jobs = s.jobs) : JQuiet s s' :=
+  ⟨id, [], JobFrame.id, by simp [e], fun _ _ => rfl, by simp, by simp⟩
+
+theorem contrib_active {a b : JState} (ha : a.active = true) (hb : b.active = true) : contrib b = contrib a := by
+  rw [contrib_of_not_terminal (active_not_terminal ha), contrib_of_not_terminal (active_not_terminal hb)]
+
+theorem jquiet_of_stepDesc {R : Int → Int → Prop} {s s' : State} {op : Op} (hd : StepDesc s op s') (hi : LInv R s)
+    (hnc : ∀ b j att inst ns st e r d, op ≠ .complete b j att inst ns st e r d) : JQuiet s s' := by
+  cases hd with
+  | same h => exact jquiet_of_eq h.1
+  | newUpdate b n hj => exact jquiet_of_eq hj
+  | insert b upd user specs u bt first hop hu hrej hj hp hupd =>
+    refine ⟨id, _, JobFrame.id, by simpa using hj, fun _ _ => rfl, ?_, ?_⟩
+    · intro y hy; rw [List.mem_map] at hy; obtain ⟨sp, _, rfl⟩ := hy; exact mkJob_not_terminal u b sp
+    · intro y hy
+      have hb : y.batch = b := by rw [List.mem_map] at hy; obtain ⟨sp, _, rfl⟩ := hy; rfl
+      rw [hb]; exact ((insertJobsReject_none hrej).1 y hy).2.1
+  | commit b upd u hu hc hp hupd hj =>
+    rcases hj with ⟨_, hj⟩ | ⟨h1, hj⟩
+    · exact jquiet_of_eq hj
+    · refine ⟨_, [], JobFrame.ite _ (jobFrame_recomputeJob s b), by simpa using hj, ?_, by simp, by simp⟩
+      intro x hx
+      by_cases hr : inUpdRange b u x = true
+      · simp only [hr, if_true]
+        obtain ⟨k1, k2⟩ := inUpdRange_update hi hu hx hr
+        have hunc : updCommitted s b upd = false := by unfold updCommitted; rw [hu]; exact hc
+        have hp := hi.unc x hx (by rw [k2]; exact h1) (by rw [k1, k2]; exact hunc)
+        rw [hp]
+        rcases recomputeJob_state s b x with h | h <;> rw [h] <;> rfl
+      · simp [hr]
+  | driver h =>
+    obtain ⟨⟨p, st, a, hj, hst, hall⟩, _⟩ := h
+    refine ⟨_, [], JobFrame.ite _ (jobFrame_setStateAttempt st a), by simpa using hj, ?_, by simp, by simp⟩
+    intro x hx
+    by_cases hpx : p x = true
+    · simp only [hpx, if_true]
+      exact contrib_active (hall x hx hpx).1 hst
+    · simp [hpx]
+  | complete b j att inst ns st e r d job hop => exact absurd hop (hnc b j att inst ns st e r d)
+
+theorem findGroup_some_of_isSome {s : State} {b g : Nat} (h : (findGroup s b g).isSome = true) :
+    ∃ x, findGroup s b g = some x := Option.isSome_iff_exists.mp h
+
+/-- a transaction that touches no tally and completes no job preserves the tally invariant -/
+theorem tinv_quiet {s s' : State} (ht : TInv s) (hq : Quiet s s') (hjq : JQuiet s s') : TInv s' := by
+  obtain ⟨hk, hb, hn⟩ := hq
+  obtain ⟨F, new, hF, hj, hcon, hnew, hnewg⟩ := hjq
+  have hanc : ∀ b g, ancestorsOf s' b g = ancestorsOf s b g := ancestorsOf_keys hk
+  have hsome : ∀ b g, (findGroup s' b g).isSome = (findGroup s b g).isSome := findGroup_isSome_keys hk
+  refine ⟨?_, ?_, ?_, ?_, ?_, ?_⟩
+  · intro g' hg'
+    obtain ⟨g, hg, he⟩ := mem_keys hk hg'
+    simp only [groupKey, Prod.mk.injEq] at he
+    rw [← he.2.1, ← he.2.2.1]; exact ht.gself g hg
+  · intro x' hx'
+    rw [hj, List.mem_append] at hx'
+    rcases hx' with hx' | hx'
+    · rw [List.mem_map] at hx'
+      obtain ⟨x, hx, rfl⟩ := hx'
+      rw [(hF x).1, (hF x).2.2.2.1, hsome]; exact ht.jgrp x hx
+    · rw [hsome]; exact hnewg x' hx'
+  · intro g' hg' a ha
+    obtain ⟨g, hg, he⟩ := mem_keys hk hg'
+    simp only [groupKey, Prod.mk.injEq] at he
+    rw [hsome, ← he.1]
+    exact ht.closed g hg a (by rw [he.2.2.1]; exact ha)
+  · intro bt hbt
+    have : bt.id ∈ s'.batches.map (·.id) := List.mem_map_of_mem hbt
+    rw [hb, List.mem_map] at this
+    obtain ⟨bt0, h0, he⟩ := this
+    rw [hn, ← he]; exact ht.bids bt0 h0
+  · intro g' hg'
+    obtain ⟨g, hg, he⟩ := mem_keys hk hg'
+    simp only [groupKey, Prod.mk.injEq] at he
+    rw [hn, ← he.1]; exact ht.gbatch g hg
+  · intro g' hg' i
+    obtain ⟨g, hg, he⟩ := mem_keys hk hg'
+    simp only [groupKey, Prod.mk.injEq] at he
+    rw [← he.2.2.2, ← he.1, ← he.2.1, ht.exact g hg i,
+      recount_map_append i hF hj (fun x _ => hanc _ _) hnew g.batch g.id]
+    have : sumBy (fun x => if under s g.batch g.id x then comp i (contrib (F x).state) - comp i (contrib x.state) else 0)
+        s.jobs = 0 := by
+      apply sumBy_zero
+      intro x hx
+      rw [hcon x hx]; simp
+    rw [this, Int.add_zero]
+
+/-! ## tallies: the three transactions that touch group rows -/
+
+theorem markGroupsComplete_keys (s : State) (b g : Nat) :
+    (markGroupsComplete s b g).groups.map groupKey = s.groups.map groupKey := by
+  unfold markGroupsComplete
+  exact map_id_ite _ _ _ _ (fun _ => rfl)
+
+theorem tallyGroups_keys (s : State) (b g : Nat) (ns : JState) :
+    (tallyGroups s b g ns).groups.map groupKey = s.groups.map (fun x => (x.batch, x.id, x.ancestors,
+      if x.batch = b ∧ x.id ∈ ancestorsOf s b g then tallyAdd (tallyOf x) (tallyInc ns) else tallyOf x)) := by
+  unfold tallyGroups
+  simp only [List.map_map]
+  apply List.map_congr_left
+  intro x _
+  simp only [Function.comp, List.contains_iff_mem]
+  split_ifs <;> rfl
+
+theorem completeJob_keys (s : State) (b j : Nat) (att : Option Nat) (ns : JState) (job : Job) :
+    (completeJob s b j att ns job).groups.map groupKey =
+      s.groups.map (fun g => (g.batch, g.id, g.ancestors,
+        if g.batch = b ∧ g.id ∈ ancestorsOf s b job.group then tallyAdd (tallyOf g) (tallyInc ns) else tallyOf g)) := by
+  unfold completeJob
+  rw [markGroupsComplete_keys]
+  show (tallyGroups (updateJobs s (isJob b j) (setStateAttempt ns att)) b job.group ns).groups.map groupKey = _
+  rw [tallyGroups_keys]
+  rfl
+
+theorem completeBatchIfDone_bids (s : State) (b : Nat) :
+    (completeBatchIfDone s b).batches.map (·.id) = s.batches.map (·.id) := by
+  unfold completeBatchIfDone
+  exact map_id_ite _ _ _ _ (fun _ => rfl)
+
+/-- `mark_job_complete`: either no tally / batch id changes, or the main branch was taken -/
+theorem complete_quiet_or_fired (s : State) (b j : Nat) (att inst : Option Nat) (ns : JState) (st e : Option Int)
+    (r : String) (d : Nat) :
+    (Quiet s (complete s b j att inst ns st e r d).1 ∧ (complete s b j att inst ns st e r d).1.jobs = s.jobs) ∨
+    ∃ job, findJob s b j = some job ∧ job.state.active = true ∧
+      (complete s b j att inst ns st e r d).1.jobs = s.jobs.map (completeMap s b j att ns) ∧
+      (complete s b j att inst ns st e r d).1.groups.map groupKey = s.groups.map (fun g => (g.batch, g.id, g.ancestors,
+        if g.batch = b ∧ g.id ∈ ancestorsOf s b job.group then tallyAdd (tallyOf g) (tallyInc ns) else tallyOf g)) ∧
+      (complete s b j att inst ns st e r d).1.batches.map (·.id) = s.batches.map (·.id) ∧
+      (complete s b j att inst ns st e r d).1.nextBatch = s.nextBatch := by
+  unfold complete
+  split
+  · exact Or.inl ⟨Quiet.refl s, rfl⟩
+  · rename_i job hj
+    replace hj := findJobFk_some hj
+    have hq := quiet_completePrep s b j att inst st e r d job
+    split_ifs with h1 h2 h3
+    · exact Or.inl ⟨hq, by simp⟩
+    · refine Or.inr ⟨job, hj, by rcases h2 with h | h | h <;> simp [h, JState.active], ?_, ?_, ?_, ?_⟩
+      · rw [updateJobs_jobs]
+        unfold completeJob
+        simp only [markGroupsComplete_jobs, completeBatchIfDone_jobs, tallyGroups_jobs, updateJobs_jobs, completePrep_jobs,
+          List.map_map]
+        rfl
+      · rw [updateJobs_groups, completeJob_keys]
+        have : ancestorsOf (completePrep s b j att inst st e r d job) b job.group = ancestorsOf s b job.group :=
+          ancestorsOf_congr (by simp) _ _
+        rw [this, completePrep_groups]
+      · rw [updateJobs_batches]
+        show (completeBatchIfDone (tallyGroups (updateJobs (completePrep s b j att inst st e r d job) (isJob b j)
+          (setStateAttempt ns att)) b job.group ns) b).batches.map (·.id) = _
+        rw [completeBatchIfDone_bids]
+        exact hq.2.1
+      · exact hq.2.2
+    · exact Or.inl ⟨hq, by simp⟩
+    · exact Or.inl ⟨hq, by simp⟩
+
+theorem sumBy_single {α : Type} (w : α → Int) (l : List α) (hnd : l.Nodup) (x0 : α) (hx0 : x0 ∈ l)
+    (hz : ∀ x ∈ l, x ≠ x0 → w x = 0) : sumBy w l = w x0 := by
+  induction l with
+  | nil => simp at hx0
+  | cons y l ih =>
+    rw [List.nodup_cons] at hnd
+    rw [sumBy_cons]
+    rcases List.mem_cons.mp hx0 with rfl | hm
+    · rw [sumBy_zero l w (fun x hx => hz x (by simp [hx]) (fun h => hnd.1 (h ▸ hx)))]; omega
+    · have hy : y ≠ x0 := fun h => hnd.1 (h ▸ hm)
+      rw [hz y (by simp) hy, ih hnd.2 hm (fun x hx => hz x (by simp [hx]))]; omega
+
+theorem nodup_of_map_nodup {α β : Type} (f : α → β) (l : List α) (h : (l.map f).Nodup) : l.Nodup := by
+  induction l with
+  | nil => exact List.nodup_nil
+  | cons x l ih =>
+    simp only [List.map_cons, List.nodup_cons] at h ⊢
+    exact ⟨fun hm => h.1 (List.mem_map_of_mem hm), ih h.2⟩
+
+theorem jobs_nodup {s : State} (hu : JobsUnique s) : s.jobs.Nodup := nodup_of_map_nodup jobKey _ hu
+
+/-- identity columns of a group row -/
+def idKey (g : Group) : Nat × Nat × List Nat := (g.batch, g.id, g.ancestors)
+
+theorem findGroup_idkeys (s : State) (b g : Nat) :
+    (findGroup s b g).map idKey = (s.groups.map idKey).find? (fun k => decide (k.1 = b ∧ k.2.1 = g)) := by
+  unfold findGroup
+  rw [List.find?_map]
+  rfl
+
+theorem ancestorsOf_idkeys {s s' : State} (h : s'.groups.map idKey = s.groups.map idKey) (b g : Nat) :
+    ancestorsOf s' b g = ancestorsOf s b g := by
+  have h1 := findGroup_idkeys s b g
+  have h2 := findGroup_idkeys s' b g
+  rw [h, ← h1] at h2
+  unfold ancestorsOf
+  cases hf : findGroup s b g with
+  | none =>
+    cases hf' : findGroup s' b g with
+    | none => rfl
+    | some v' => rw [hf, hf'] at h2; simp at h2
+  | some v =>
+    cases hf' : findGroup s' b g with
+    | none => rw [hf, hf'] at h2; simp at h2
+    | some v' =>
+      rw [hf, hf'] at h2
+      simp only [Option.map_some, Option.some.injEq, idKey, Prod.mk.injEq] at h2
+      exact h2.2.2
+
+theorem findGroup_isSome_idkeys {s s' : State} (h : s'.groups.map idKey = s.groups.map idKey) (b g : Nat) :
+    (findGroup s' b g).isSome = (findGroup s b g).isSome := by
+  have h1 := findGroup_idkeys s b g
+  have h2 := findGroup_idkeys s' b g
+  rw [h, ← h1] at h2
+  cases hf : findGroup s b g <;> cases hf' : findGroup s' b g <;> rw [hf, hf'] at h2 <;> simp at h2 <;> rfl
+
+/-- one more group row with zero tallies under which no job lies -/
+theorem tinv_addGroup {s s' : State} (ht : TInv s) (G : Group) (hg : s'.groups = s.groups ++ [G]) (hj : s'.jobs = s.jobs)
+    (hbt : ∀ bt ∈ s'.batches, bt.id < s'.nextBatch) (hn : s.nextBatch ≤ s'.nextBatch) (hGb : G.batch < s'.nextBatch)
+    (hself : G.id ∈ G.ancestors) (hz : tallyOf G = (0, 0, 0, 0))
+    (hclosed : ∀ a ∈ G.ancestors, a = G.id ∨ (findGroup s G.batch a).isSome = true)
+    (hnojob : ∀ x ∈ s.jobs, under s' G.batch G.id x = false) : TInv s' := by
+  have hsome : ∀ b g, (findGroup s b g).isSome = true → (findGroup s' b g).isSome = true := by
+    intro b g h; rw [findGroup_append_some hg h]; exact h
+  have hunder : ∀ x ∈ s.jobs, ∀ b gid, under s' b gid x = under s b gid x := by
+    intro x hx b gid
+    unfold under
+    rw [ancestorsOf_append_some hg (ht.jgrp x hx)]
+  have hGmem : G ∈ s'.groups := by rw [hg]; simp
+  refine ⟨?_, ?_, ?_, hbt, ?_, ?_⟩
+  · intro g hg'
+    rw [hg, List.mem_append, List.mem_singleton] at hg'
+    rcases hg' with h | rfl
+    · exact ht.gself g h
+    · exact hself
+  · intro x hx
+    rw [hj] at hx
+    exact hsome _ _ (ht.jgrp x hx)
+  · intro g hg' a ha
+    rw [hg, List.mem_append, List.mem_singleton] at hg'
+    rcases hg' with h | rfl
+    · exact hsome _ _ (ht.closed g h a ha)
+    · rcases hclosed a ha with rfl | h
+      · exact findGroup_isSome_of_mem hGmem
+      · exact hsome _ _ h
+  · intro g hg'
+    rw [hg, List.mem_append, List.mem_singleton] at hg'
+    rcases hg' with h | rfl
+    · exact Nat.lt_of_lt_of_le (ht.gbatch g h) hn
+    · exact hGb
+  · intro g hg' i
+    rw [hg, List.mem_append, List.mem_singleton] at hg'
+    rcases hg' with h | rfl
+    · rw [ht.exact g h i]
+      unfold recount
+      rw [hj]
+      apply sumBy_congr
+      intro x hx
+      rw [hunder x hx]
+    · rw [hz, comp_zero]
+      unfold recount
+      rw [hj]
+      symm
+      apply sumBy_zero
+      intro x hx
+      rw [hnojob x hx]; rfl
+
+theorem tinv_createBatch (s : State) (ht : TInv s) (u bp t : Nat) : TInv (createBatch s u bp t).1 := by
+  unfold createBatch
+  split
+  · exact ht
+  · dsimp only
+    refine tinv_addGroup ht (Group.mk s.nextBatch 0 [0] none .complete 0 0 0 0 0) rfl rfl ?_ (Nat.le_succ _)
+      (Nat.lt_succ_self _) (by simp) rfl (by intro a ha; left; simpa using ha) ?_
+    · intro bt hbt
+      simp only [List.mem_append, List.mem_singleton] at hbt
+      rcases hbt with h | rfl
+      · exact Nat.lt_succ_of_lt (ht.bids bt h)
+      · exact Nat.lt_succ_self _
+    · intro x hx
+      obtain ⟨grp, hgrp⟩ := findGroup_some_of_isSome (ht.jgrp x hx)
+      obtain ⟨hm, hb, _⟩ := mem_of_findGroup hgrp
+      have := ht.gbatch grp hm
+      have hne : x.batch ≠ s.nextBatch := by omega
+      simp [under, hne]
+
+theorem tinv_insertGroup (s s' : State) (ht : TInv s) (b upd gid parent : Nat) (hb : b < s.nextBatch)
+    (h : insertGroup s b upd gid parent = some s') : TInv s' ∧ s'.nextBatch = s.nextBatch := by
+  unfold insertGroup at h
+  split_ifs at h with h1 h2 h3 h4
+  simp only [Option.some.injEq] at h
+  subst h
+  refine ⟨?_, rfl⟩
+  have hfresh : findGroup s b gid = none := by simpa using h2
+  refine tinv_addGroup ht (Group.mk b gid (gid :: ancestorsOf s b parent) (some upd) .complete 0 0 0 0 0) rfl rfl ht.bids
+    (Nat.le_refl _) hb (by simp) rfl ?_ ?_
+  · intro a ha
+    simp only [List.mem_cons] at ha
+    rcases ha with rfl | ha
+    · exact Or.inl rfl
+    · right
+      unfold ancestorsOf at ha
+      cases hp : findGroup s b parent with
+      | none => rw [hp] at ha; simp at ha
+      | some prow =>
+        rw [hp] at ha
+        obtain ⟨hm, hpb, _⟩ := mem_of_findGroup hp
+        have := ht.closed prow hm a ha
+        rw [hpb] at this; exact this
+  · intro x hx
+    unfold under
+    simp only [Bool.and_eq_false_iff, decide_eq_false_iff_not]
+    by_cases hxb : x.batch = b
+    · right
+      rw [ancestorsOf_append_some (s := s) rfl (ht.jgrp x hx)]
+      obtain ⟨grp, hgrp⟩ := findGroup_some_of_isSome (ht.jgrp x hx)
+      obtain ⟨hm, hgb, _⟩ := mem_of_findGroup hgrp
+      unfold ancestorsOf
+      rw [hgrp]
+      cases hcon : grp.ancestors.contains gid with
+      | false => rfl
+      | true =>
+        have hmem : gid ∈ grp.ancestors := by simpa using hcon
+        have := ht.closed grp hm gid hmem
+        rw [hgb, hxb, hfresh] at this
+        simp at this
+    · exact Or.inl hxb
+
+theorem tinv_foldGroups (b upd : Nat) (u : Update) (specs : List GroupSpec) :
+    ∀ (s s' : State), TInv s → b < s.nextBatch → specs.foldl (groupSpecStep b upd u) (some s) = some s' → TInv s' := by
+  induction specs with
+  | nil => intro s s' ht _ h; simp at h; subst h; exact ht
+  | cons sp rest ih =>
+    intro s s' ht hb h
+    simp only [List.foldl_cons] at h
+    cases hmid : groupSpecStep b upd u (some s) sp with
+    | none => rw [hmid, foldGroups_none] at h; exact absurd h (by simp)
+    | some mid =>
+      rw [hmid] at h
+      obtain ⟨htm, hnm⟩ := tinv_insertGroup s mid ht b upd _ _ hb (by simpa [groupSpecStep] using hmid)
+      exact ih mid s' htm (by rw [hnm]; exact hb) h
+
+theorem mem_of_findBatch {s : State} {b : Nat} {x : Batch} (h : findBatch s b = some x) : x ∈ s.batches ∧ x.id = b := by
+  unfold findBatch at h
+  have := List.find?_some h
+  exact ⟨List.mem_of_find?_eq_some h, by simpa using this⟩
+
+theorem tinv_insertGroups (s : State) (ht : TInv s) (b upd user : Nat) (specs : List GroupSpec) :
+    TInv (insertGroups s b upd user specs).1 := by
+  unfold insertGroups
+  split
+  · exact ht
+  · split
+    · rename_i u bt hu hbt
+      split_ifs
+      · exact ht
+      · exact ht
+      · exact ht
+      · dsimp only
+        split
+        · rename_i s' hr
+          obtain ⟨hm, hid⟩ := mem_of_findBatch hbt
+          exact tinv_foldGroups b upd u _ s s' ht (by rw [← hid]; exact ht.bids bt hm) hr
+        · exact ht
+    · exact ht
+
+variable {R : Int → Int → Prop}
+
+theorem contrib_terminal {st : JState} (h : st.terminal = true) : contrib st = tallyInc st := by simp [contrib, h]
+
+/-- the main branch of `mark_job_complete` keeps tallies and recount in step -/
+theorem tinv_complete {s s' : State} (hi : LInv R s) (ht : TInv s) {b j : Nat} {att : Option Nat} {ns : JState} {job : Job}
+    (hns : ns.terminal = true) (hj : findJob s b j = some job) (hact : job.state.active = true)
+    (hjobs : s'.jobs = s.jobs.map (completeMap s b j att ns))
+    (hkeys : s'.groups.map groupKey = s.groups.map (fun g => (g.batch, g.id, g.ancestors,
+      if g.batch = b ∧ g.id ∈ ancestorsOf s b job.group then tallyAdd (tallyOf g) (tallyInc ns) else tallyOf g)))
+    (hb : s'.batches.map (·.id) = s.batches.map (·.id)) (hn : s'.nextBatch = s.nextBatch) : TInv s' := by
+  have hF := jobFrame_completeMap s b j att ns
+  obtain ⟨hjm, hjb, hjid⟩ := mem_of_findJob hj
+  have hid : s'.groups.map idKey = s.groups.map idKey := by
+    have := congrArg (List.map (fun k : Nat × Nat × List Nat × (Int × Int × Int × Int) => (k.1, k.2.1, k.2.2.1))) hkeys
+    rw [List.map_map, List.map_map] at this
+    exact this
+  have hanc : ∀ b g, ancestorsOf s' b g = ancestorsOf s b g := ancestorsOf_idkeys hid
+  have hsome : ∀ b g, (findGroup s' b g).isSome = (findGroup s b g).isSome := findGroup_isSome_idkeys hid
+  have hmem : ∀ g' ∈ s'.groups, ∃ g ∈ s.groups, g'.batch = g.batch ∧ g'.id = g.id ∧ g'.ancestors = g.ancestors ∧
+      tallyOf g' = if g.batch = b ∧ g.id ∈ ancestorsOf s b job.group then tallyAdd (tallyOf g) (tallyInc ns) else tallyOf g := by
+    intro g' hg'
+    have : groupKey g' ∈ s'.groups.map groupKey := List.mem_map_of_mem hg'
+    rw [hkeys, List.mem_map] at this
+    obtain ⟨g, hg, he⟩ := this
+    simp only [groupKey, Prod.mk.injEq] at he
+    exact ⟨g, hg, he.1.symm, he.2.1.symm, he.2.2.1.symm, he.2.2.2.symm⟩
+  refine ⟨?_, ?_, ?_, ?_, ?_, ?_⟩
+  · intro g' hg'
+    obtain ⟨g, hg, e1, e2, e3, _⟩ := hmem g' hg'
+    rw [e2, e3]; exact ht.gself g hg
+  · intro x' hx'
+    rw [hjobs, List.mem_map] at hx'
+    obtain ⟨x, hx, rfl⟩ := hx'
+    rw [(hF x).1, (hF x).2.2.2.1, hsome]; exact ht.jgrp x hx
+  · intro g' hg' a ha
+    obtain ⟨g, hg, e1, e2, e3, _⟩ := hmem g' hg'
+    rw [hsome, e1]; exact ht.closed g hg a (by rw [← e3]; exact ha)
+  · intro bt hbt
+    have : bt.id ∈ s'.batches.map (·.id) := List.mem_map_of_mem hbt
+    rw [hb, List.mem_map] at this
+    obtain ⟨bt0, h0, he⟩ := this
+    rw [hn, ← he]; exact ht.bids bt0 h0
+  · intro g' hg'
+    obtain ⟨g, hg, e1, _⟩ := hmem g' hg'
+    rw [hn, e1]; exact ht.gbatch g hg
+  · intro g' hg' i
+    obtain ⟨g, hg, e1, e2, e3, e4⟩ := hmem g' hg'
+    rw [e1, e2, e4, recount_map_append i hF (new := []) (by simpa using hjobs) (fun x _ => hanc _ _) (by simp) g.batch g.id]
+    -- only the completing job changes its contribution
+    have hsum : sumBy (fun x => if under s g.batch g.id x then
+        comp i (contrib (completeMap s b j att ns x).state) - comp i (contrib x.state) else 0) s.jobs =
+        if under s g.batch g.id job then comp i (tallyInc ns) else 0 := by
+      rw [sumBy_single _ _ (jobs_nodup hi.uniq) job hjm]
+      · obtain ⟨_, k2⟩ | ⟨k1, _⟩ | ⟨k1, _⟩ := completeMap_cases hi att ns hj hact job hjm
+        · rw [k2]
+          simp only [setStateAttempt]
+          rw [contrib_terminal hns, contrib_of_not_terminal (active_not_terminal hact), comp_zero, Int.sub_zero]
+        · exact absurd rfl k1
+        · exact absurd rfl k1
+      · intro x hx hne
+        rcases completeMap_cases hi att ns hj hact x hx with ⟨k1, _⟩ | ⟨_, _, k3, k4⟩ | ⟨_, _, k4⟩
+        · exact absurd k1 hne
+        · rw [k4, k3]
+          rcases childUpdate_state ns x with h | h <;> rw [h] <;> simp [contrib, JState.terminal]
+        · rw [k4]; simp
+    rw [hsum]
+    have hcond : (under s g.batch g.id job = true) ↔ (g.batch = b ∧ g.id ∈ ancestorsOf s b job.group) := by
+      unfold under
+      rw [hjb]
+      simp only [Bool.and_eq_true, decide_eq_true_eq, List.contains_iff_mem]
+      constructor
+      · rintro ⟨h1, h2⟩; exact ⟨h1.symm, h2⟩
+      · rintro ⟨h1, h2⟩; exact ⟨h1.symm, h2⟩
+    by_cases hc : g.batch = b ∧ g.id ∈ ancestorsOf s b job.group
+    · rw [if_pos hc, if_pos (hcond.mpr hc), comp_add, ht.exact g hg i]
+    · rw [if_neg hc, if_neg (fun h => hc (hcond.mp h)), ht.exact g hg i, Int.add_zero]
+
+/-- every transaction of a good history preserves the tally invariant -/
+theorem tinv_step (s : State) (hi : LInv R s) (ht : TInv s) (op : Op) (hwf : op.WF) : TInv (step s op).1 := by
+  have hd := stepDesc s hi.uniq hi.upd op
+  have quiet : ∀ (_ : Quiet s (step s op).1)
+      (_ : ∀ b j att inst ns st e r d, op ≠ .complete b j att inst ns st e r d), TInv (step s op).1 :=
+    fun hq hnc => tinv_quiet ht hq (jquiet_of_stepDesc hd hi hnc)
+  cases op with
+  | createBatch u bp t => exact tinv_createBatch s ht u bp t
+  | createUpdate b t nj ng u => exact quiet (quiet_createUpdate s b t nj ng u) (by intros; exact Op.noConfusion)
+  | insertGroups b u usr specs => exact tinv_insertGroups s ht b u usr specs
+  | insertJobs b u usr specs => exact quiet (quiet_insertJobs s b u usr specs) (by intros; exact Op.noConfusion)
+  | commitUpdate b u => exact quiet (quiet_commitUpdate s b u) (by intros; exact Op.noConfusion)
+  | cancelGroup b g => exact quiet (quiet_cancelGroup s b g) (by intros; exact Op.noConfusion)
+  | deleteBatch b => exact quiet (quiet_deleteBatch s b) (by intros; exact Op.noConfusion)
+  | newInstance n c p => exact quiet (quiet_newInstance s n c p) (by intros; exact Op.noConfusion)
+  | activate n => exact quiet (quiet_activate s n) (by intros; exact Op.noConfusion)
+  | deactivate n r ts d => exact quiet (quiet_deactivate s n r ts d) (by intros; exact Op.noConfusion)
+  | markDeleted n => exact quiet (quiet_markDeleted s n) (by intros; exact Op.noConfusion)
+  | schedule b j a i => exact quiet (quiet_schedule s b j a i) (by intros; exact Op.noConfusion)
+  | creating b j a i ts d => exact quiet (quiet_startLike s b j a i ts d _ _) (by intros; exact Op.noConfusion)
+  | started b j a i ts d => exact quiet (quiet_startLike s b j a i ts d _ _) (by intros; exact Op.noConfusion)
+  | unschedule b j a i e r d => exact quiet (quiet_unschedule s b j a i e r d) (by intros; exact Op.noConfusion)
+  | addResources b j a res d => exact quiet (quiet_addResources s b j a res d) (by intros; exact Op.noConfusion)
+  | heartbeat atts ts d => exact quiet ⟨rfl, rfl, rfl⟩ (by intros; exact Op.noConfusion)
+  | cleanupStaging => exact quiet ⟨rfl, rfl, rfl⟩ (by intros; exact Op.noConfusion)
+  | cleanupCancellable => exact quiet ⟨rfl, rfl, rfl⟩ (by intros; exact Op.noConfusion)
+  | compact => exact quiet ⟨rfl, rfl, rfl⟩ (by intros; exact Op.noConfusion)
+  | complete b j att inst ns st e r d =>
+    rcases complete_quiet_or_fired s b j att inst ns st e r d with ⟨hq, hjobs⟩ | ⟨job, hj, hact, hjobs, hkeys, hb, hn⟩
+    · exact tinv_quiet ht hq (jquiet_of_eq hjobs)
+    · exact tinv_complete hi ht hwf hj hact hjobs hkeys hb hn
+
 end HailVerif.BatchDB
